@@ -417,6 +417,52 @@ Set Printing Depth 10000000.
 '''
 
 
+def run_prog(harness, wd, flags=(), timeout=3600):
+    """vharness prog on every *.sol of wd.  If the harness process dies (stack overflow, abort - it cannot be caught
+    inside the process) the file it was working on gets a result `parse ok / hang process-died` (an abort like a panic for
+    the checks) and the harness is started again on the files that have no result yet, so that one aborting input costs
+    one restart instead of the whole run.  -> (0, log) or (rc, log) when the harness cannot be run at all"""
+    log_all = ''
+    for _ in range(50):
+        rc, out = sh([harness, 'prog', wd] + list(flags), timeout=timeout)
+        log_all += out[-2000:]
+        if rc == 0:
+            return 0, log_all
+        sols = sorted(f for f in os.listdir(wd) if f.endswith('.sol'))
+        missing = [f for f in sols if not os.path.exists(os.path.join(wd, f[:-4] + '.res'))]
+        if not missing:
+            return rc, log_all
+        culprit = missing[0]
+        head = 'parse ok\n'
+        if 'nodump' not in flags:
+            # the tree of the culprit, obtained without running any analysis on it
+            one = os.path.join(wd, '.one')
+            shutil.rmtree(one, ignore_errors=True)
+            os.makedirs(one)
+            shutil.copyfile(os.path.join(wd, culprit), os.path.join(one, '00000.sol'))
+            rc1, _ = sh([harness, 'prog', one, 'dumponly'], timeout=600)
+            rp = os.path.join(one, '00000.res')
+            if rc1 == 0 and os.path.exists(rp):
+                head = open(rp, encoding='utf-8').read()
+            shutil.rmtree(one, ignore_errors=True)
+        open(os.path.join(wd, culprit[:-4] + '.res'), 'w', encoding='utf-8').write(head + 'hang process-died(rc=%d)\n' % rc)
+        # results exist for everything before the culprit; hide the finished files from the next round
+        done_dir = os.path.join(wd, '.done')
+        os.makedirs(done_dir, exist_ok=True)
+        for f in sols:
+            if os.path.exists(os.path.join(wd, f[:-4] + '.res')):
+                os.rename(os.path.join(wd, f), os.path.join(done_dir, f))
+        if len(missing) == 1:
+            break
+    # put the sources back next to their results
+    done_dir = os.path.join(wd, '.done')
+    if os.path.isdir(done_dir):
+        for f in os.listdir(done_dir):
+            os.rename(os.path.join(done_dir, f), os.path.join(wd, f))
+        os.rmdir(done_dir)
+    return 0, log_all
+
+
 def parse_res(txt):
     r = {'det': {}, 'lines': {}, 'walk': {}, 'parse': None, 'dump': None, 'version': None}
     for line in txt.split('\n'):
@@ -446,6 +492,8 @@ def parse_res(txt):
             name, _, vals = rest.partition(' ')
             if name == 'PANIC':
                 r['walk'] = 'PANIC'
+            elif name == 'subskipped':
+                r['walk']['sub'] = None
             elif name in ('sub', 'single'):
                 r['walk'][name] = [int(v) for v in vals.split()]
             else:
@@ -497,7 +545,7 @@ class ProgSet:
                 os.makedirs(os.path.join(self.dir, 'src'))
                 for i, p in enumerate(self.all):
                     open(os.path.join(self.dir, 'src', '%05d.sol' % i), 'w', encoding='utf-8', newline='').write(p['src'])
-                rc, out = sh([harness, 'prog', os.path.join(self.dir, 'src')], timeout=1800)
+                rc, out = run_prog(harness, os.path.join(self.dir, 'src'))
                 if rc != 0:
                     raise BuildError('harness prog failed: ' + out[-2000:])
                 meta = []
@@ -550,8 +598,7 @@ class ProgSet:
         os.makedirs(wd)
         for p in self.progs:
             open(os.path.join(wd, '%05d.sol' % p['j']), 'w', encoding='utf-8', newline='').write(p['src'])
-        args = [harness, 'prog', wd, 'nodump'] + (['walk'] if walk else [])
-        rc, out = sh(args, timeout=3600)
+        rc, out = run_prog(harness, wd, ['nodump'] + (['walk'] if walk else []))
         if rc != 0:
             raise BuildError('harness prog failed: ' + out[-2000:])
         res = []
